@@ -17,6 +17,18 @@ checks = {
  "C16": dict(level="exploration", technique="bounded exhaustive product (all buffers <= L over 7 symbols x cursor x kill command x numeric argument, kill pairs, regions, vi x+P) on the real loop with a kill/yank law oracle",
    text="Every buffer up to length L over {a b space . \" newline é}, every cursor position, each of 10 kill commands by name with and without numeric argument 2, kill-region for every mark position, every ordered pair of kills, and vi x (count 1-3) + P: the removed text must be the kill buffer, yank must insert exactly it and restore the buffer.",
    note="State planted through a registered command using only Line().Set/Cursor().Set; vi line-wise registers not judged.", ref="7 C16"),
+ "C07": dict(level="model_checking", technique="explicit-state BFS over edit/kill/yank/history-walk/undo/redo commands on the real loop (state key contains the undo stacks) + law probes executed in every reached state",
+   text="BFS to depth 3 (thorough 4) over 15-23 commands in emacs and vi with and without history; in each of the reached states six law probes run as extra executions: undo until stable, undo^n redo^n (n=1..3), undo+edit+redo, undo+edit+undo. Every buffer produced by undo must have been shown before, repeated undo must reach the initial content, redo must invert undo for n up to the available steps, and a new edit must discard exactly the redo branch.",
+   note="'for that line' approximated by all buffers shown earlier in the session plus history entries; no random tail beyond the depth bound.", ref="7 C07"),
+ "C09": dict(level="model_checking", technique="explicit-state BFS per (history, source kind, in-progress text, cursor) over navigation/search commands on the real loop, against an exact list/index reference model and match-set membership",
+   text="For 6 histories x 3 source kinds x 4 in-progress texts x 2 cursor positions, BFS over 14 navigation/search commands by name plus incremental-search sessions (pattern keys only inside the minibuffer), in emacs and vi-command. Exact model on navigation-only paths, documented match set for prefix/substring/incremental searches, no 'history error' hint, sources unchanged.",
+   note="end-of-history may show the newest entry or the in-progress text; search string may be the text before point of the shown line or of the in-progress line.", ref="7 C09"),
+ "C17": dict(level="exploration", technique="bounded exhaustive product (buffers x cursor x 35 motions/text objects x 4 count forms; visual v/V) with a two-execution differential oracle (y... vs d... from the identical planted state)",
+   text="From every planted (buffer, cursor) state in vi command mode, y<motion> and d<motion> are executed separately: yank must leave the buffer unchanged, both must leave the same register text, and the original buffer must equal the buffer after delete with that text re-inserted.",
+   note="Line-wise registers may differ by one trailing newline as documented.", ref="7 C17"),
+ "C18": dict(level="exploration", technique="bounded exhaustive enumeration of key scripts (<= n keys over 20 emacs / 19 vi keys x 3 start buffers) with a differential oracle: typed twice vs recorded + replayed",
+   text="For every script K: final (buffer, cursor) of K K typed must equal that of start-record K end-record replay, in the emacs style (C-x ( ... C-x ) C-x e) and the vi style (q a ... q @ a).",
+   note="Scripts ending in a numeric argument are excluded (the argument would apply to different keys in the two executions). One known finding: a lone ESC followed by a key forming a bound ESC-sequence in vi macros.", ref="7 C18"),
  "C10": dict(level="fault_enumeration", engine="pure", technique="exhaustive crash-point enumeration: every byte offset of an append truncated on a real file, reopen, append, reopen, against a list reference model",
    text="All write histories up to the stated length over a 15-line alphabet (quotes, newlines, controls, multi-byte, U+2028, >64 KiB, blank, duplicates, JSON look-alikes) are written through the real file-backed history; the file is reopened and compared with the reference list; then every byte offset of the last append (thorough: of every append) is used as a crash point: truncate, reopen, append through a fresh instance, reopen.",
    note="Crash model = a byte prefix of a single O_APPEND write survives; fsync/power-loss reordering is outside the statement. Offsets inside the 70000-byte record are a stated subset.", ref="7 C10"),
